@@ -4,21 +4,27 @@ import Glom.Model.C15Env
 /-
   C15 driver.
 
-  case: {"heap":[Obj…], "targets":[Val…],
+  case: {"heap":[Obj…],
+         "events":[{"t":Val} | {"reg":{"cls":c,"exact":b,"kw":[[op,hname|null]…]}} …]
+                     (or "targets":[Val…]: evaluations only),
+         "registry":"module"|"glommer"            (which registry the evaluations and registrations use),
          "prog":{"kind":"fold"|"sum"|"count"|"flatten"|"merge"|"flatten_fn"|"merge_fn",
                  "sub":[Val…], "init":Init|null, "op":Op|null, "levels":int|null},
-         "impl":{"results":[R…], "after":[Obj…]}}
-  Init: "int"|"str"|"list"|"tuple"|"dict"|"OrderedDict"|"Acc"|"lazy"|{"shared":Val};  null = argument
-        omitted (the default extracted from the source is used)
-  Op:   "iadd"|"add"|"update"|"first_wins";  null = omitted
+         "impl":{"results":[R…], "after":[Obj…],
+                 "hier":{"mro":[[t,[c…]]…],"inst":[[t,c]…],"sub":[[c,d]…],"auto":[[f,[[t,hname]…]]…]}}}
+  Init: "int"|"float"|"str"|"list"|"tuple"|"dict"|"OrderedDict"|"Acc"|"lazy"|{"shared":Val}|{"copy":Val};
+        null = argument omitted (the default extracted from the source is used)
+  Op:   "iadd"|"add"|"append"|"cons"|"update"|"first_wins";  null = omitted
   R:    {"err":[cls,isGlomError]} | {"imm":Val} | {"input":addr} | {"prev":i} | {"fresh":Obj}
+  a float is {"f": the 16 hex digits of its IEEE-754 bit pattern} (NaN canonical)
 -/
 namespace Glom.C15.Driver
 open Lean Glom Glom.C15
 
 def initOfName (s : String) : Option InitArg :=
   match s with
-  | "int" => some (.init .int) | "str" => some (.init .str) | "list" => some (.init .list)
+  | "int" => some (.init .int) | "float" => some (.init .float)
+  | "str" => some (.init .str) | "list" => some (.init .list)
   | "tuple" => some (.init .tuple) | "dict" => some (.init .dict)
   | "OrderedDict" => some (.init .odict) | "Acc" => some (.init .acc) | "lazy" => some .lazy
   | _ => none
@@ -32,9 +38,12 @@ def initArgOfJson (cls : String) (j : Json) : Except String InitArg :=
   | .str s => match initOfName s with
     | some i => .ok i
     | none => .error s!"bad init {s}"
-  | _ => do
-    let v ← valOfJson (← j.getObjVal? "shared")
-    return .init (.shared v)
+  | _ =>
+    match j.getObjVal? "copy" with
+    | .ok c => do return .init (.copyOf (← valOfJson c))
+    | .error _ => do
+      let v ← valOfJson (← j.getObjVal? "shared")
+      return .init (.shared v)
 
 def plainInit (cls : String) (j : Json) : Except String Init := do
   match ← initArgOfJson cls j with
@@ -50,6 +59,8 @@ def foldOpOfJson (j : Json) : Except String Op :=
     | d => .error s!"unusable default for Fold.op in the extracted facts: {d}"
   | .str "iadd" => .ok .iadd
   | .str "add" => .ok .add
+  | .str "append" => .ok .append
+  | .str "cons" => .ok .cons
   | _ => .error s!"bad fold op {j.compress}"
 
 def mergeOpOfJson (cls : String) (j : Json) : Except String MergeOpArg :=
@@ -122,7 +133,8 @@ def rTag : R → String
   | .fresh _ => "new-other"
 
 def progTag : Prog → String
-  | .fold _ _ .add => "Fold/add" | .fold .. => "Fold/iadd"
+  | .fold _ _ .add => "Fold/add" | .fold _ _ .append => "Fold/append" | .fold _ _ .cons => "Fold/cons"
+  | .fold .. => "Fold/iadd"
   | .sum .. => "Sum" | .count => "Count"
   | .flatten _ .lazy => "Flatten/lazy" | .flatten .. => "Flatten"
   | .merge .. => "Merge"
@@ -135,31 +147,88 @@ def keysOk (h : Heap) : Bool :=
     | .dict _ es => es.all (fun e => match e.1 with | .ref _ => false | _ => true)
     | _ => true)
 
+def valFloatOk : Val → Bool
+  | .float s => (bitsOfHex s).isSome
+  | _ => true
+
+/-- floats are well-formed bit patterns; an iterable harness object has its `names` -/
+def cellsOk (h : Heap) : Bool :=
+  h.all (fun o => (cellVals o).all valFloatOk &&
+    (match o with
+     | .inst c as => !(iterInstClasses.contains c) || (attrOf as "names").isSome
+     | _ => true))
+
+def optStr (j : Json) : Except String (Option String) :=
+  match j with
+  | .null => .ok none
+  | .str s => .ok (some s)
+  | _ => .error s!"expected string or null, got {j.compress}"
+
+def hierOfJson (j : Json) : Except String C13.HierTab := do
+  let mro ← listOfJson (pairOfJson strOfJson (listOfJson strOfJson)) (← j.getObjVal? "mro")
+  let inst ← listOfJson (pairOfJson strOfJson strOfJson) (← j.getObjVal? "inst")
+  let sub ← listOfJson (pairOfJson strOfJson strOfJson) (← j.getObjVal? "sub")
+  let auto ← listOfJson (pairOfJson strOfJson (listOfJson (pairOfJson strOfJson strOfJson)))
+    (← j.getObjVal? "auto")
+  return { mro, inst, sub, auto }
+
+def eventOfJson (j : Json) : Except String Event := do
+  if let .ok t := j.getObjVal? "t" then return .eval (← valOfJson t)
+  let r ← j.getObjVal? "reg"
+  let cls ← r.getObjValAs? String "cls"
+  let exact ← (← r.getObjVal? "exact").getBool?
+  let kw ← listOfJson (pairOfJson strOfJson optStr) (← r.getObjVal? "kw")
+  return .register cls exact kw
+
+def eventsOfJson (j : Json) : Except String (List Event) :=
+  match j.getObjVal? "events" with
+  | .ok es => listOfJson eventOfJson es
+  | .error _ => do
+    let ts ← listOfJson valOfJson (← j.getObjVal? "targets")
+    return ts.map .eval
+
+def hasReg : List Event → Bool
+  | [] => false
+  | .register .. :: _ => true
+  | .eval _ :: es => hasReg es
+
 def run (j : Json) : Except String Json := do
   let heap ← heapOfJson (← j.getObjVal? "heap")
-  let targets ← listOfJson valOfJson (← j.getObjVal? "targets")
+  let events ← eventsOfJson j
+  let targets := Event.targets events
   let prog ← progOfJson (← j.getObjVal? "prog")
-  let implObs ← obsOfJson (← j.getObjVal? "impl")
+  let impl ← j.getObjVal? "impl"
+  let implObs ← obsOfJson impl
+  let H := (← hierOfJson (← impl.getObjVal? "hier")).toHier
   if !(wfCase heap targets && (progVals prog).all (Val.inb heap.length)) then
     return Json.mkObj [("skip", true), ("why", "heap not closed / dangling target")]
   if !(keysOk heap) then
     return Json.mkObj [("skip", true), ("why", "container used as a dict key")]
+  if !(cellsOk heap && targets.all valFloatOk && (progVals prog).all valFloatOk) then
+    return Json.mkObj [("skip", true), ("why", "malformed float / iterable instance without `names`")]
+  if !(prog.initWF heap) then
+    return Json.mkObj [("skip", true), ("why", "copying init over something that is not a list / tuple / dict")]
   let env := genEnv
-  let out := runProg env prog targets heap
-  let modelObs := observe env heap.length out
+  let out := runProgR H env prog events (genReg H) heap
+  let modelObs := observe env heap.length (out.1, out.2.1)
   -- hypothesis-violating stream (init returns a shared object): an operator call that fails
   -- half-way has already mutated that object; such partial effects are not modelled
   if !prog.initAllocates && modelObs.results.any (fun r => match r with | .err .. => true | _ => false) then
     return Json.mkObj [("skip", true), ("why", "shared init and a failing operator call")]
   let agree := modelObs == implObs
-  -- the property is evaluated in the documented environment (`specEnv`), on the implementation's observation
-  let holds := checkC15 specEnv heap prog targets implObs
-  let modelHolds := checkC15 specEnv heap prog targets modelObs
+  -- hypothesis of the flatten(levels ≥ 2) reference: chain objects are iterated with `iter`
+  let chainOK := !prog.usesChain || chainIterAlong H specEnv events (specReg H)
+  -- the property is evaluated in the documented environment (`specEnv`, `specReg`), memo-free,
+  -- on the implementation's observation
+  let holds := !chainOK || checkC15R H specEnv (specReg H) heap prog events implObs
+  let modelHolds := !chainOK || checkC15R H specEnv (specReg H) heap prog events modelObs
   let tag := match modelObs.results with | r :: _ => rTag r | [] => "no-eval"
   return Json.mkObj [("agree", agree), ("holds", holds), ("model_holds", modelHolds),
-    ("wf", WF env && WFSrc genSrc), ("hyp_init_allocates", prog.initAllocates),
+    ("wf", WFConv env && WFSrc genSrc && defaultsOK (pureLk H (genReg H))),
+    ("wf_parts", Json.arr #[Json.bool (WFConv env), Json.bool (WFSrc genSrc), Json.bool (defaultsOK (pureLk H (genReg H)))]),
+    ("hyp_init_allocates", prog.initAllocates), ("hyp_chain_iter", chainOK),
     ("model", obsToJson modelObs),
-    ("expected", Json.arr ((targets.map (expectR specEnv heap prog)).map rToJson).toArray),
-    ("branch", s!"{progTag prog}:{tag}")]
+    ("expected", Json.arr ((expectAll H specEnv heap prog events (specReg H)).map rToJson).toArray),
+    ("branch", s!"{progTag prog}{if hasReg events then "+reg" else ""}:{tag}")]
 
 end Glom.C15.Driver
